@@ -216,6 +216,18 @@ class Extractor:
         if k == "match" and e.get("src") == "for":
             # desugared for: the iterator expression, then the loop inside the single arm
             out.extend(self._items(e["scrut"], fn, names, depth, stack))
+            elems = self._array_literal_elems(e, fn)
+            if elems is not None:
+                # `for x in [a, b, c] { .. }`: a fixed number of iterations, one per listed value - the same
+                # transcript as the body written out once for each of them
+                prev = getattr(self, "_iter_override", None)
+                for cls in elems:
+                    self._iter_override = cls
+                    for a in e["arms"]:
+                        for it in self._items(a["body"], fn, names, depth, stack):
+                            out.extend(it[1] if it[0] == "loop" else [it])
+                self._iter_override = prev
+                return out
             for a in e["arms"]:
                 out.extend(self._items(a["body"], fn, names, depth, stack))
             return out
@@ -242,6 +254,29 @@ class Extractor:
         for c in children(e):
             out.extend(self._items(c, fn, names, depth, stack))
         return out
+
+    def _array_literal_elems(self, e, fn):
+        """classes of the elements when the `for` iterates over an array literal of plain local variables."""
+        sc = e.get("scrut")
+        if not (isinstance(sc, dict) and sc.get("k") == "call" and (sc.get("def") or "").endswith("IntoIterator::into_iter")):
+            return None
+        args = sc.get("args") or []
+        if len(args) != 1 or not isinstance(args[0], dict) or args[0].get("k") != "array":
+            return None
+        b = self.f.bodies.get(fn["id"])
+        if b is None:
+            return None
+        out = []
+        for x in args[0].get("args", []):
+            while isinstance(x, dict) and x.get("k") in ("addrof", "deref") and len(x.get("args", [])) == 1:
+                x = x["args"][0]
+            if not (isinstance(x, dict) and x.get("k") == "path" and x.get("res") == "local"):
+                return None
+            ls = [l for l, loc in enumerate(b.locals) if loc.get("name") == x["name"]]
+            if len(ls) != 1:
+                return None
+            out.append(self.classify_local(b.id, ls[0]))
+        return out or None
 
     @staticmethod
     def _is_while(body):
@@ -327,6 +362,8 @@ class Extractor:
                 a = t["args"][1] if len(t["args"]) > 1 else None
                 if a and a["k"] in ("copy", "move"):
                     cls = self.classify_local(bid, a["pl"]["l"])
+            if getattr(self, "_iter_override", None) and cls in ("computed", "?"):
+                cls = self._iter_override
             return ("absorb", cls)
         size = "?"
         args = e.get("args", [])
